@@ -37,7 +37,7 @@ from typing import Dict, List, Sequence
 from . import pyexpr, pyloops
 from .common import Unsupported
 from .pyexpr import BOOL, INT, RAT, VAL, Binding, Ex, Param, TranslatorBug, lean_ident, src
-from .pyloops import (AParam, ArrayInfo, LEAN_TYPE, OK, LoopKernel, MapKernelTranslator, TIf, TLet, TLoop, TMerge, TYield)
+from .pyloops import (AParam, Arr, ArrayInfo, LEAN_TYPE, OK, LoopKernel, MapKernelTranslator, TIf, TLet, TLoop, TMerge, TYield)
 
 NEW_OPS = {"band", "bor", "trunc"}
 
@@ -109,6 +109,24 @@ def lower(e: Ex, arrays) -> Ex:
                 else:
                     words.append(a[ref])
             return Ex("var", e.ty, (), "(" + " ".join(words) + ")")
+        if e.op in ("sumband2", "slicenonneg2", "rowmaskzero", "rownonneg"):
+            info = arrays[e.aux]
+            f = {"sumband2": "PyInterp.sumBand2", "slicenonneg2": "PyInterp.allNonneg2", "rowmaskzero": "PyInterp.rowMaskZero",
+                 "rownonneg": "PyInterp.rowNonneg"}[e.op]
+            return Ex("var", e.ty, (), "(" + " ".join([f, info.lean] + list(info.dims) + a) + ")")
+        if e.op == "vecloop":
+            n, var, sub = e.aux
+
+            class _K:  # what pyloops.lean_tree needs of a kernel
+                pass
+            _K.arrays = arrays
+            lines = pyloops.lean_tree(lower_tree(sub, arrays), "          ", _K)
+            last = lines.pop().strip()
+            lines += [f"          let pyOut : Bool × Val := {last}",
+                      "          if pyOut.1 then PyLoops.Res.ok pyOut.2 else PyLoops.Res.outOfBounds))"]
+            return Ex("var", e.ty, (), f"(PyInterp.collect {n} (fun ({var} : Int) =>\n" + "\n".join(lines))
+        if e.op == "inbaxis0":
+            return Ex("var", e.ty, (), f"(PyLoops.inb {arrays[e.aux].dims[0]} {a[0]})")
         text = {"band": "(PyInterp.band {0} {1})", "bor": "(PyInterp.bor {0} {1})", "trunc": "(PyInterp.truncRat {0})"}
         text.update(LOWER_TEXT)
         return Ex("var", e.ty, (), text[e.op].format(*a))
@@ -159,6 +177,45 @@ def ev(e: Ex, env, arrays):
         py_name, parts = e.aux
         ck = arrays["#callees"][py_name].kernel
         return evaluate_vec(ck, [arrays[ref] if kind == "array" else a[ref] for kind, ref in parts])
+    if e.op in ("sumband2", "slicenonneg2"):
+        arr = arrays[e.aux]
+        cells = [arr.data[i][j] for i in range(*clip_slice(arr.shape[0], a[0], a[1])) for j in range(*clip_slice(arr.shape[1], a[2], a[3]))]
+        if e.op == "slicenonneg2":
+            return all(x >= 0 for x in cells)
+        return sum((x & a[4]) if x >= 0 and a[4] >= 0 else 0 for x in cells)
+    if e.op in ("rowmaskzero", "rownonneg"):
+        arr = arrays[e.aux]
+        i = pyloops.wrap(arr.shape[0], a[0])
+        row = arr.data[i] if 0 <= i < arr.shape[0] else []  # the row index is tested separately (inbaxis0)
+        cells = [row[j] for j in range(*clip_slice(arr.shape[1], a[1], a[2]))] if row else []
+        if e.op == "rownonneg":
+            return all(x >= 0 for x in cells)
+        return [((x & a[3]) if x >= 0 and a[3] >= 0 else 0) == 0 for x in cells]
+    if e.op == "inbaxis0":
+        n = arrays[e.aux].shape[0]
+        return 0 <= pyloops.wrap(n, a[0]) < n
+    if e.op == "vreverse":
+        return list(reversed(a[0]))
+    if e.op == "argmax":
+        return a[0].index(True) if True in a[0] else 0
+    if e.op == "vnonempty":
+        return len(a[0]) > 0
+    if e.op == "vgetb":
+        i = pyloops.wrap(len(a[0]), a[1])
+        return a[0][i] if 0 <= i < len(a[0]) else False
+    if e.op == "vinbb":
+        return 0 <= pyloops.wrap(len(a[0]), a[1]) < len(a[0])
+    if e.op == "vecloop":
+        n, var, sub = e.aux
+        out = []
+        for k in range(n):
+            env_k = dict(env)
+            env_k[var] = k
+            _, vals = run_tree(sub, env_k, arrays)
+            if not vals[0]:
+                return ("outOfBounds", None)
+            out.append(vals[1])
+        return ("ok", out)
     if e.op == "resok":
         return a[0][0] == "ok"
     if e.op == "resget":
@@ -186,6 +243,15 @@ def ev(e: Ex, env, arrays):
         env2[f"#x{i}"] = v
         names.append(Ex("var", e.args[i].ty, (), f"#x{i}"))
     return pyloops.ev(Ex(e.op, e.ty, tuple(names), e.aux), env2, arrays)
+
+
+def clip_slice(n, lo, hi):
+    """the index range of `a[lo:hi]` on an axis of length n (Python's clipping; PyInterp.clipIdx)"""
+    def clip(x):
+        x = x + n if x < 0 else x
+        return 0 if x < 0 else (n if x > n else x)
+    lo, hi = clip(lo), clip(hi)
+    return lo, max(lo, hi)
 
 
 def run_tree(tree, env, arrays):  # noqa: C901
@@ -256,6 +322,14 @@ class VecKernelTranslator(MapKernelTranslator):
         self.x = ExtExprTranslator(fn, lean_name, numpy_names, source_text)
         self.x.consts = dict(consts or {})
         self.length = None
+
+    def assigned(self, stmts):
+        """pyloops carries `pyOk` through an `if` / a loop only when it sees an array read; here bit operations, calls and
+        slice sums are tested too: the flag is always carried"""
+        out = super().assigned(stmts)
+        if OK not in out:
+            out.append(OK)
+        return out
 
     def store_cell(self, t: ast.Subscript) -> int:
         if not (isinstance(t.value, ast.Name) and t.value.id == self.out_name):
@@ -408,11 +482,16 @@ VECVAL = "vecval"  # a 1-D float array, as `List Val`
 RESVEC = "resvecval"  # what a call of a vector kernel returns
 LEAN_TYPE.setdefault(VECVAL, "List Val")  # additive: pyloops renders `let x : <type>` through this table
 LEAN_TYPE.setdefault(RESVEC, "PyLoops.Res (List Val)")
-NEW_OPS |= {"call", "resok", "resget", "countfinite", "anyfinite", "nanmedian", "sortedabsget", "vinb"}
+VECBOOL = "vecbool"  # a 1-D boolean array (a mask), as `List Bool`
+LEAN_TYPE.setdefault(VECBOOL, "List Bool")
+NEW_OPS |= {"call", "resok", "resget", "countfinite", "anyfinite", "nanmedian", "sortedabsget", "vinb", "sumband2", "slicenonneg2",
+            "rowmaskzero", "rownonneg", "inbaxis0", "vreverse", "argmax", "vnonempty", "vgetb", "vinbb", "vecloop"}
 LOWER_TEXT = {
     "resok": "(PyInterp.Res.isOk {0})", "resget": "(PyInterp.Res.getD [] {0})", "countfinite": "(PyInterp.countFinite {0})",
     "anyfinite": "(PyInterp.anyFinite {0})", "nanmedian": "(PyInterp.nanmedian {0})",
     "sortedabsget": "(PyInterp.sortedAbsGet {0} {1})", "vinb": "(PyInterp.vinb {0} {1})",
+    "vreverse": "(List.reverse {0})", "argmax": "(PyInterp.argmax {0})", "vnonempty": "(!(List.isEmpty {0}))",
+    "vgetb": "(PyInterp.vget false {0} {1})", "vinbb": "(PyInterp.vinb {0} {1})",
 }
 
 
@@ -431,14 +510,106 @@ class CopyExprTranslator(ExtExprTranslator):
             return Ex("var", VECVAL, (), env[node.id].lean)
         return None
 
+    def bool_vec_local(self, node, env):
+        if isinstance(node, ast.Name) and node.id in env and env[node.id].ty == VECBOOL:
+            return Ex("var", VECBOOL, (), env[node.id].lean)
+        return None
+
+    def row_mask(self, node, env, facts):
+        """`(arr[i, lo:hi] & c) == 0`: the mask of a row slice (Python clips the slice: no read outside along the row; the
+        row index `i` is an ordinary index and is tested) -> Ex of type vecbool, or None when `node` is not of that form"""
+        if not (isinstance(node, ast.Compare) and len(node.ops) == 1 and isinstance(node.ops[0], ast.Eq)
+                and int_literal(node.comparators[0]) == 0 and isinstance(node.left, ast.BinOp) and isinstance(node.left.op, ast.BitAnd)):
+            return None
+        sub, cnode = node.left.left, node.left.right
+        if not (isinstance(sub, ast.Subscript) and isinstance(sub.value, ast.Name) and sub.value.id in self.arrays
+                and isinstance(sub.slice, ast.Tuple) and len(sub.slice.elts) == 2 and isinstance(sub.slice.elts[1], ast.Slice)
+                and not isinstance(sub.slice.elts[0], ast.Slice)):
+            return None
+        fn = self.fn.name
+        arr = self.arrays[sub.value.id]
+        sl = sub.slice.elts[1]
+        if arr.ndim != 2 or arr.elem != INT or sl.step is not None:
+            raise Unsupported(f"{fn}: `{src(node)}`: row-slice mask of a {arr.ndim}-D {arr.elem} array / slice with a step")
+        if self.short_circuit:
+            raise Unsupported(f"{fn}: array read `{src(node)}` inside the right operand of and/or")
+        i = self.expr(sub.slice.elts[0], env, facts)
+        lo = Ex("lit", INT, (), Fraction(0)) if sl.lower is None else self.expr(sl.lower, env, facts)
+        hi = Ex("var", INT, (), arr.dims[1]) if sl.upper is None else self.expr(sl.upper, env, facts)
+        c = self.expr(cnode, env, facts)
+        if not all(x.ty == INT for x in (i, lo, hi, c)):
+            raise Unsupported(f"{fn}: `{src(node)}`: index, slice bounds and constant must be integers")
+        self.reads.append(Ex("inbaxis0", BOOL, (i,), arr.name))
+        chk = nonneg_check(c)
+        if chk is not None:
+            self.reads.append(chk)
+        self.reads.append(Ex("rownonneg", BOOL, (i, lo, hi), arr.name))
+        return Ex("rowmaskzero", VECBOOL, (i, lo, hi, c), arr.name)
+
     def expr(self, node, env, facts) -> Ex:  # noqa: C901
         fn = self.fn.name
+        m = self.row_mask(node, env, facts)
+        if m is not None:
+            return m
+        if isinstance(node, ast.Subscript) and isinstance(node.value, ast.Name) and node.value.id in env \
+                and env[node.value.id].ty == VECBOOL:
+            v = Ex("var", VECBOOL, (), env[node.value.id].lean)
+            sl = node.slice
+            if isinstance(sl, ast.Slice):
+                step = sl.step
+                if sl.lower is None and sl.upper is None and isinstance(step, ast.UnaryOp) and isinstance(step.op, ast.USub) \
+                        and int_literal(step.operand) == 1:
+                    return Ex("vreverse", VECBOOL, (v,))
+                raise Unsupported(f"{fn}: `{src(node)}`: the only slice of a mask is `[::-1]`")
+            if isinstance(sl, ast.Tuple):
+                raise Unsupported(f"{fn}: `{src(node)}`: a mask has one dimension")
+            if self.short_circuit:
+                raise Unsupported(f"{fn}: mask read `{src(node)}` inside the right operand of and/or")
+            k = self.expr(sl, env, facts)
+            if k.ty != INT:
+                raise Unsupported(f"{fn}: index `{src(sl)}` is a {k.ty}")
+            self.reads.append(Ex("vinbb", BOOL, (v, k)))
+            return Ex("vgetb", BOOL, (v, k))
+        if isinstance(node, ast.Name) and node.id in env and env[node.id].ty == VECBOOL:
+            return Ex("var", VECBOOL, (), env[node.id].lean)
+        if isinstance(node, ast.Call) and not node.keywords and self.is_np_call(node, "argmax"):
+            v = self.expr(node.args[0], env, facts)
+            if v.ty != VECBOOL:
+                raise Unsupported(f"{fn}: `{src(node)}`: np.argmax of something that is not a mask")
+            self.reads.append(Ex("vnonempty", BOOL, (v,)))  # numpy raises on an empty array
+            return Ex("argmax", INT, (v,))
         if isinstance(node, ast.Call) and not node.keywords:
             f = node.func
             if self.is_np_call(node, "sum") and self.is_np_call(node.args[0], "isfinite"):
                 v = self.vec_local(node.args[0].args[0], env)
                 if v is not None:
                     return Ex("countfinite", INT, (v,))
+            if self.is_np_call(node, "sum") and isinstance(node.args[0], ast.BinOp) and isinstance(node.args[0].op, ast.BitAnd):
+                # np.sum(arr[lo0:hi0, lo1:hi1] & c): a 2-D slice (clipped as Python clips it: no read outside) of an int array
+                sub, cnode = node.args[0].left, node.args[0].right
+                if isinstance(sub, ast.Subscript) and isinstance(sub.value, ast.Name) and sub.value.id in self.arrays \
+                        and isinstance(sub.slice, ast.Tuple) and len(sub.slice.elts) == 2 \
+                        and all(isinstance(x, ast.Slice) for x in sub.slice.elts):
+                    arr = self.arrays[sub.value.id]
+                    if arr.ndim != 2 or arr.elem != INT:
+                        raise Unsupported(f"{fn}: `{src(node)}`: slice sum of a {arr.ndim}-D {arr.elem} array")
+                    bounds = []
+                    for axis, sl in enumerate(sub.slice.elts):
+                        if sl.step is not None:
+                            raise Unsupported(f"{fn}: `{src(node)}`: slice with a step")
+                        lo = Ex("lit", INT, (), Fraction(0)) if sl.lower is None else self.expr(sl.lower, env, facts)
+                        hi = Ex("var", INT, (), arr.dims[axis]) if sl.upper is None else self.expr(sl.upper, env, facts)
+                        if lo.ty != INT or hi.ty != INT:
+                            raise Unsupported(f"{fn}: `{src(node)}`: slice bounds are not integers")
+                        bounds += [lo, hi]
+                    c = self.expr(cnode, env, facts)
+                    if c.ty != INT:
+                        raise Unsupported(f"{fn}: `{src(node)}`: `&` with a {c.ty}")
+                    chk = nonneg_check(c)
+                    if chk is not None:
+                        self.reads.append(chk)
+                    self.reads.append(Ex("slicenonneg2", BOOL, tuple(bounds), arr.name))  # `&` is defined on non-negative words
+                    return Ex("sumband2", INT, tuple(bounds) + (c,), arr.name)
             if self.is_np_call(node, "nanmedian"):
                 v = self.vec_local(node.args[0], env)
                 if v is not None:
@@ -470,8 +641,9 @@ class CopyExprTranslator(ExtExprTranslator):
 @dataclass
 class OutArray:
     name: str
-    source: str  # the array parameter it copies
+    source: str  # the array parameter it copies (None: a local vector filled by an inner loop)
     elem: str
+    index: tuple = None  # the index variables a store must use (None: the two pixel variables)
 
 
 class CopyKernelTranslator(VecKernelTranslator):
@@ -491,8 +663,18 @@ class CopyKernelTranslator(VecKernelTranslator):
                 return i
         return None
 
-    def cell_name(self, k: int) -> str:
+    def cell_name(self, k) -> str:
+        if isinstance(k, str):  # a local vector met by the assignment analysis outside the loop that fills it
+            return f"{k}#0"
         return f"{self.outs[k].name}#0"
+
+    def local_vectors(self):
+        """names bound somewhere in the function by `v = np.full(N, np.nan, …)`"""
+        if not hasattr(self, "_local_vecs"):
+            self._local_vecs = {node.targets[0].id for node in ast.walk(self.fn)
+                                if isinstance(node, ast.Assign) and len(node.targets) == 1 and isinstance(node.targets[0], ast.Name)
+                                and isinstance(node.value, ast.Call) and self.is_np_full_nan(node.value) is not None}
+        return self._local_vecs
 
     def cell_lean(self, k: int) -> str:
         return lean_ident(f"{self.outs[k].name}_px")
@@ -504,11 +686,14 @@ class CopyKernelTranslator(VecKernelTranslator):
 
     def store_cell(self, t: ast.Subscript) -> int:
         k = self.out_index(t.value.id) if isinstance(t.value, ast.Name) else None
+        if k is None and isinstance(t.value, ast.Name) and t.value.id in self.local_vectors():
+            return t.value.id  # only the analysis of assigned names gets here (`block` refuses such a store, see below)
         if k is None:
             self.bad(f"store into `{src(t)}`: only the copies {[o.name for o in self.outs]} are written")
         idx = t.slice.elts if isinstance(t.slice, ast.Tuple) else [t.slice]
-        if len(idx) != 2 or not all(isinstance(i, ast.Name) and i.id == v for i, v in zip(idx, self.pix)):
-            self.bad(f"`{src(t)}`: a pixel kernel stores at `[{self.pix[0]}, {self.pix[1]}]` only")
+        want = self.outs[k].index or self.pix
+        if len(idx) != len(want) or not all(isinstance(i, ast.Name) and i.id == v for i, v in zip(idx, want)):
+            self.bad(f"`{src(t)}`: `{self.outs[k].name}` is stored at `[{', '.join(want)}]` only")
         self.out_elem = self.outs[k].elem  # the element type `block` tests the stored value against
         return k
 
@@ -543,25 +728,32 @@ class CopyKernelTranslator(VecKernelTranslator):
                 return
             if is_np and f.attr == "array":
                 if len(v.args) != 1 or v.keywords or not isinstance(v.args[0], ast.List):
-                    self.bad(f"`{src(st)}`: expected np.array([[…], …]) of integer literals")
-                rows = []
+                    self.bad(f"`{src(st)}`: expected np.array([[…], …]) of numeric literals")
+                rows, is_float = [], False
                 for r in v.args[0].elts:
                     if not isinstance(r, ast.List) or not r.elts:
                         self.bad(f"`{src(st)}`: a row of the table is not a list")
                     row = []
                     for e in r.elts:
                         neg = isinstance(e, ast.UnaryOp) and isinstance(e.op, ast.USub)
-                        n = int_literal(e.operand if neg else e)
-                        if n is None:
-                            self.bad(f"`{src(st)}`: entry `{src(e)}` is not an integer literal (a float table changes the callee's types)")
-                        row.append(-n if neg else n)
+                        lit = e.operand if neg else e
+                        if not (isinstance(lit, ast.Constant) and isinstance(lit.value, (int, float)) and not isinstance(lit.value, bool)):
+                            self.bad(f"`{src(st)}`: entry `{src(e)}` is not a numeric literal")
+                        q = self.x.literal(lit)  # exact decimal reading of a float literal, or refusal
+                        is_float = is_float or q.ty == RAT
+                        row.append(-q.aux if neg else q.aux)
                     rows.append(row)
                 if not rows or len({len(r) for r in rows}) != 1:
                     self.bad(f"`{src(st)}`: ragged table")
                 if t.id in env or t.id in self.x.arrays or self.out_index(t.id) is not None:
                     self.bad(f"`{t.id}` is already bound")
-                text = "(PyLoops.tab2 (0 : Int) [" + ", ".join("[" + ", ".join(f"({n} : Int)" for n in r) + "]" for r in rows) + "])"
-                self.x.arrays[t.id] = ArrayInfo(t.id, INT, 2, text, [f"({len(rows)} : Int)", f"({len(rows[0])} : Int)"])
+                # numpy: one float entry makes the whole table float64 (exact for these literals); otherwise int64
+                elem = RAT if is_float else INT
+                ty = "Rat" if is_float else "Int"
+                cell = (lambda q: pyexpr.lean_lit(q, "rat")) if is_float else (lambda q: f"({int(q)} : Int)")
+                rows = [[Fraction(q) if is_float else int(q) for q in r] for r in rows]
+                text = f"(PyLoops.tab2 (0 : {ty}) [" + ", ".join("[" + ", ".join(cell(q) for q in r) + "]" for r in rows) + "])"
+                self.x.arrays[t.id] = ArrayInfo(t.id, elem, 2, text, [f"({len(rows)} : Int)", f"({len(rows[0])} : Int)"])
                 self.literals[t.id] = rows
                 return
         super().prelude_stmt(st, env, lets)
@@ -570,6 +762,11 @@ class CopyKernelTranslator(VecKernelTranslator):
     def block(self, ss, env, cont, leaf, brk_leaf):  # noqa: C901
         if ss:
             st, rest = ss[0], list(ss[1:])
+            if isinstance(st, (ast.Assign, ast.AugAssign)):
+                tg = st.targets[0] if isinstance(st, ast.Assign) else st.target
+                if isinstance(tg, ast.Subscript) and isinstance(tg.value, ast.Name) and tg.value.id in self.local_vectors() \
+                        and self.out_index(tg.value.id) is None:
+                    self.bad(f"`{src(st)}`: `{tg.value.id}` is stored outside the loop that fills it")
             if isinstance(st, ast.AugAssign) and isinstance(st.target, ast.Subscript) and isinstance(st.op, (ast.BitOr, ast.BitAnd)):
                 k = self.store_cell(st.target)
                 name = self.cell_name(k)
@@ -587,6 +784,9 @@ class CopyKernelTranslator(VecKernelTranslator):
                 env2 = dict(env)
                 env2[name] = Binding(self.lean_of(name), INT)
                 return self.with_checks(lambda: TLet(self.lean_of(name), e, self.block(rest, env2, cont, leaf, brk_leaf)))
+            if isinstance(st, ast.Assign) and len(st.targets) == 1 and isinstance(st.targets[0], ast.Name) and isinstance(st.value, ast.Call) \
+                    and self.is_np_full_nan(st.value) is not None:
+                return self.vec_loop_stmt(st, rest, env, cont, leaf, brk_leaf)
             if isinstance(st, ast.Assign) and len(st.targets) == 1 and isinstance(st.targets[0], ast.Name) and isinstance(st.value, ast.Call):
                 t, v = st.targets[0].id, st.value
                 if isinstance(v.func, ast.Name) and v.func.id in self.callees and v.func.id not in env:
@@ -600,11 +800,101 @@ class CopyKernelTranslator(VecKernelTranslator):
                     env2 = dict(env)
                     env2[t] = Binding(env[inner.id].lean, "perm:" + inner.id)
                     return self.block(rest, env2, cont, leaf, brk_leaf)
+            if isinstance(st, ast.Assign) and len(st.targets) == 1 and isinstance(st.targets[0], ast.Name):
+                # a mask local (`msk = (valid[col, a:b] & c) == 0`, `msk = msk[::-1]`); may be re-assigned
+                mark = len(self.x.reads)
+                try:
+                    e = self.expr(st.value, env)
+                except Unsupported:
+                    e = None
+                if e is not None and e.ty == VECBOOL:
+                    name = st.targets[0].id
+                    if name in self.frozen or name.startswith("py") or (name in env and env[name].ty != VECBOOL):
+                        self.bad(f"`{src(st)}`: `{name}` cannot hold a mask")
+                    env2 = dict(env)
+                    env2[name] = Binding(lean_ident(name), VECBOOL)
+                    return self.with_checks(lambda: TLet(lean_ident(name), e, self.block(rest, env2, cont, leaf, brk_leaf)))
+                del self.x.reads[mark:]
             if isinstance(st, (ast.Assign, ast.AugAssign)):
                 tg = st.targets[0] if isinstance(st, ast.Assign) else st.target
+                if isinstance(tg, ast.Name) and tg.id in env and env[tg.id].ty == VECBOOL:
+                    self.bad(f"`{src(st)}`: the mask `{tg.id}` is assigned something that is not a mask")
                 if isinstance(tg, ast.Name) and tg.id in env and (env[tg.id].ty == VECVAL or str(env[tg.id].ty).startswith("perm:")):
                     self.bad(f"`{src(st)}`: the vector local `{tg.id}` is assigned twice")
         return super().block(ss, env, cont, leaf, brk_leaf)
+
+    def is_np_full_nan(self, v: ast.Call):
+        """`np.full(<int literal N>, np.nan, dtype=np.float32|float64)` -> N, else None"""
+        f = v.func
+        if not (isinstance(f, ast.Attribute) and f.attr == "full" and isinstance(f.value, ast.Name) and f.value.id in self.numpy_names):
+            return None
+        if len(v.args) != 2 or len(v.keywords) != 1 or v.keywords[0].arg != "dtype":
+            return None
+        n, fill, d = int_literal(v.args[0]), v.args[1], v.keywords[0].value
+        if n is None or not 1 <= n <= 64:
+            return None
+        if not (isinstance(fill, ast.Attribute) and isinstance(fill.value, ast.Name) and fill.value.id in self.numpy_names
+                and fill.attr in ("nan", "NaN", "NAN")):
+            return None
+        if not (isinstance(d, ast.Attribute) and isinstance(d.value, ast.Name) and d.value.id in self.numpy_names
+                and d.attr in pyloops.FLOAT_DTYPES):
+            return None
+        return n
+
+    def vec_loop_stmt(self, st, rest, env, cont, leaf, brk_leaf):  # noqa: C901
+        """`v = np.full(N, np.nan, dtype=…)` immediately followed by `for k in range(N): BODY`, BODY storing only at `v[k]`,
+        never reading `v`, assigning no local bound outside it: an inlined vector kernel.  `v[k]` is a function of `k`
+        (starting from NaN): `v := PyInterp.collect N (fun k => <that function>)`, `Res.outOfBounds` when one of its tests fails."""
+        name = st.targets[0].id
+        n = self.is_np_full_nan(st.value)
+        self.fresh_local(name, env)
+        if not rest or not isinstance(rest[0], ast.For):
+            self.bad(f"`{src(st)}` must be followed by the loop that fills `{name}`")
+        loop, after = rest[0], rest[1:]
+        var, e0, body = self.simple_range_loop(loop)
+        if int_literal(e0) != n:
+            self.bad(f"`{name}` has {n} cells but the loop that fills it runs over range({src(e0)})")
+        if var in env or var in self.frozen or var.startswith("py"):
+            self.bad(f"the loop variable `{var}` is already bound")
+        store_bases = {id(node.value) for node in ast.walk(loop) if isinstance(node, ast.Subscript) and isinstance(node.ctx, ast.Store)}
+        for node in ast.walk(loop):
+            if isinstance(node, ast.AugAssign) and isinstance(node.target, ast.Subscript) and isinstance(node.target.value, ast.Name) \
+                    and node.target.value.id == name:
+                self.bad(f"`{src(node)}`: `{name}` is read inside the loop that fills it")
+            if isinstance(node, ast.Name) and node.id == name and id(node) not in store_bases:
+                self.bad(f"`{name}` is read inside the loop that fills it")
+        saved_outs, saved_frozen = self.outs, self.frozen
+        self.outs = list(self.outs) + [OutArray(name, None, VAL, (var,))]
+        self.frozen = set(self.frozen) | {var}
+        try:
+            k = len(self.outs) - 1
+            cell = self.cell_name(k)
+            for a in self.assigned(body):
+                if a in (OK, cell):
+                    continue
+                if "#" in a:
+                    self.bad(f"the loop that fills `{name}` stores into `{a.split('#')[0]}`")
+                if a in env or a in saved_frozen:
+                    self.bad(f"the loop that fills `{name}` assigns `{a}`, bound outside it (a value would flow between its iterations)")
+                if a.startswith("py") or a in pyexpr.BUILTINS or a in self.numpy_names or a in ("int", "math"):
+                    self.bad(f"the local `{a}` collides with a name the translator uses")
+            env_in = dict(env)
+            env_in[var] = Binding(lean_ident(var), INT)
+            env_in[OK] = Binding(OK, BOOL)
+            env_in[cell] = Binding(self.cell_lean(k), VAL)
+            sub = self.block(list(body), env_in, [], lambda e: TYield([self.var(e[OK]), self.var(e[cell])]), None)
+            sub = TLet(OK, Ex("const", BOOL, (), True), TLet(self.cell_lean(k), Ex("nan", VAL), sub))
+        finally:
+            self.outs, self.frozen = saved_outs, saved_frozen
+        self.ncall += 1
+        res = f"pyVec{self.ncall}"
+        e_loop = Ex("vecloop", RESVEC, (), (n, lean_ident(var), sub))
+        env2 = dict(env)
+        env2[name] = Binding(lean_ident(name), VECVAL)
+        rvar = Ex("var", RESVEC, (), res)
+        return TLet(res, e_loop,
+                    TLet(OK, Ex("and", BOOL, (Ex("var", BOOL, (), OK), Ex("resok", BOOL, (rvar,)))),
+                         TLet(lean_ident(name), Ex("resget", VECVAL, (rvar,)), self.block(list(after), env2, cont, leaf, brk_leaf))))
 
     def fresh_local(self, name, env):
         if name in env or name in self.frozen or name in self.x.arrays or self.out_index(name) is not None or name.startswith("py"):
@@ -743,3 +1033,177 @@ class CopyKernelTranslator(VecKernelTranslator):
 
 def translate_copy_kernel(fn, lean_name, params, numpy_names=("np",), source_text=None, consts=None, callees=()) -> LoopKernel:
     return CopyKernelTranslator(fn, lean_name, params, numpy_names, source_text, consts, callees).translate()
+
+
+# ------------------------------------------------------------------------------------------------
+# independent reading: pyloops' imperative interpreter of the AST, extended to the constructs above.  It shares nothing
+# with the translation (no IR, no per-pixel decomposition): the WHOLE function is run statement by statement on mutable
+# arrays, as Python does.  Arrays of any rank are `pyloops.Arr` (cells: int | bool | Fraction | "nan").
+# ------------------------------------------------------------------------------------------------
+class EmptyArgmax(Exception):
+    """numpy raises ValueError on the argmax of an empty array"""
+
+
+def _flat(x):
+    return [z for y in x for z in _flat(y)] if isinstance(x, list) else [x]
+
+
+def _shape_of(x):
+    return (len(x),) + _shape_of(x[0]) if isinstance(x, list) and x else ((0,) if isinstance(x, list) else ())
+
+
+def _mk(data, integer=False):
+    a = Arr(data, _shape_of(data))
+    a.integer = integer
+    return a
+
+
+def _map(x, f):
+    return [_map(y, f) for y in x] if isinstance(x, list) else f(x)
+
+
+class InterpExt(pyloops.Interp):
+    def __init__(self, numpy_names=("np",), consts=None, functions=None):
+        super().__init__(numpy_names)
+        self.consts = dict(consts or {})
+        self.functions = dict(functions or {})  # python name -> ast.FunctionDef of a callable kernel
+
+    # ---- scalars
+    def binop(self, op, a, b):
+        if isinstance(op, (ast.BitAnd, ast.BitOr)):
+            if isinstance(a, pyloops.Arr) or isinstance(b, pyloops.Arr):
+                arr, other = (a, b) if isinstance(a, pyloops.Arr) else (b, a)
+                return _mk(_map(arr.data, lambda x: self.binop(op, x, other)), integer=getattr(arr, "integer", False))
+            if isinstance(a, bool) and isinstance(b, bool):
+                return (a and b) if isinstance(op, ast.BitAnd) else (a or b)
+            if isinstance(a, int) and isinstance(b, int) and a >= 0 and b >= 0:
+                return (a & b) if isinstance(op, ast.BitAnd) else (a | b)
+            raise Unsupported("interpreter: `&` / `|` on something that is not two bools or two non-negative ints")
+        return super().binop(op, a, b)
+
+    # ---- subscripts with slices / partial indices
+    def subscript(self, arr, parts):
+        data, integer = arr.data, getattr(arr, "integer", False)
+
+        def rec(x, shape, parts):
+            if not parts:
+                return x
+            n, p = shape[0], parts[0]
+            if isinstance(p, tuple):  # ("slice", lo, hi, step)
+                _, lo, hi, step = p
+                idx = range(n)[slice(lo, hi, step)]
+                return [rec(x[i], shape[1:], parts[1:]) for i in idx]
+            i = pyloops.wrap(n, p)
+            if not 0 <= i < n:
+                raise pyloops.OutOfBounds("index outside the array")
+            return rec(x[i], shape[1:], parts[1:])
+
+        out = rec(data, arr.shape, parts)
+        return _mk(out, integer) if isinstance(out, list) else out
+
+    def index_parts(self, sl, env):
+        out = []
+        for p in (sl.elts if isinstance(sl, ast.Tuple) else [sl]):
+            if isinstance(p, ast.Slice):
+                out.append(("slice",) + tuple(None if x is None else self.ex(x, env) for x in (p.lower, p.upper, p.step)))
+            else:
+                v = self.ex(p, env)
+                if not (isinstance(v, int) and not isinstance(v, bool)):
+                    raise Unsupported("interpreter: non-integer index")
+                out.append(v)
+        return out
+
+    def ex(self, node, env):  # noqa: C901
+        if isinstance(node, ast.Attribute) and src(node) in self.consts:
+            return self.consts[src(node)]
+        if isinstance(node, ast.Subscript):
+            base = self.ex(node.value, env) if not isinstance(node.value, ast.Name) else env[node.value.id]
+            if not isinstance(base, pyloops.Arr):
+                raise Unsupported("interpreter: subscript of a non-array")
+            return self.subscript(base, self.index_parts(node.slice, env))
+        if isinstance(node, ast.Name) and node.id in env:
+            return env[node.id]
+        if isinstance(node, ast.List):
+            return [self.ex(e, env) for e in node.elts]
+        if isinstance(node, ast.Compare) and len(node.ops) == 1:
+            left = self.ex(node.left, env)
+            if isinstance(left, pyloops.Arr):
+                right = self.ex(node.comparators[0], env)
+                name = {ast.Eq: "eq", ast.NotEq: "ne", ast.Lt: "lt", ast.LtE: "le", ast.Gt: "gt", ast.GtE: "ge"}[type(node.ops[0])]
+                return _mk(_map(left.data, lambda x: pyloops.f_cmp(name, self.num(x), self.num(right))))
+        if isinstance(node, ast.Call):
+            f = node.func
+            if isinstance(f, ast.Name) and f.id in self.functions and f.id not in env:
+                return self.call(self.functions[f.id], [self.ex(a, env) for a in node.args])
+            if isinstance(f, ast.Name) and f.id == "int" and len(node.args) == 1:
+                v = self.ex(node.args[0], env)
+                if isinstance(v, int):
+                    return int(v)
+                if pyloops.is_special(v):
+                    raise Unsupported("interpreter: int() of NaN / infinity")
+                q = Fraction(v)
+                n = abs(q.numerator) // q.denominator
+                return n if q >= 0 else -n
+            if isinstance(f, ast.Attribute) and isinstance(f.value, ast.Name) and f.value.id == "math" and f.attr == "floor":
+                v = self.ex(node.args[0], env)
+                if isinstance(v, int) and not isinstance(v, bool):
+                    return v
+                raise Unsupported("interpreter: math.floor of a non-integer")
+            if isinstance(f, ast.Attribute) and f.attr == "any" and not node.args:
+                return any(bool(x) for x in _flat(self.ex(f.value, env).data))
+            if isinstance(f, ast.Attribute) and isinstance(f.value, ast.Name) and f.value.id in self.np:
+                return self.np_call(f.attr, node, env)
+        return super().ex(node, env)
+
+    def np_call(self, name, node, env):  # noqa: C901
+        args = [self.ex(a, env) for a in node.args]
+        dtype = next((k.value.attr for k in node.keywords if k.arg == "dtype" and isinstance(k.value, ast.Attribute)), None)
+        if name == "copy":
+            return _mk(_map(args[0].data, lambda x: x), getattr(args[0], "integer", False))
+        if name == "array":
+            integer = all(isinstance(x, int) for x in _flat(args[0]))
+            return _mk(_map(args[0], lambda x: x if integer else Fraction(x)), integer)
+        if name in ("zeros", "full"):
+            shape = args[0] if isinstance(args[0], tuple) else (args[0],)
+            integer = dtype in pyloops.INT_DTYPES
+            fill = (0 if integer else Fraction(0)) if name == "zeros" else args[1]
+
+            def mk(sh):
+                return [mk(sh[1:]) for _ in range(sh[0])] if len(sh) > 1 else [fill] * sh[0]
+            a = Arr(mk(list(shape)), shape)
+            a.integer = integer
+            return a
+        if name in ("isfinite", "isnan", "abs") and isinstance(args[0], pyloops.Arr):
+            f = {"isfinite": lambda x: not pyloops.is_special(x), "isnan": lambda x: x == pyloops.FNAN,
+                 "abs": lambda x: abs(x) if isinstance(x, int) else pyloops.f_abs(x)}[name]
+            return _mk(_map(args[0].data, f), name == "abs" and getattr(args[0], "integer", False))
+        if name == "sum":
+            cells = _flat(args[0].data)
+            if any(pyloops.is_special(x) or isinstance(x, Fraction) for x in cells):
+                raise Unsupported("interpreter: np.sum of floats")
+            return sum(int(x) for x in cells)
+        if name == "argmax":
+            cells = _flat(args[0].data)
+            if not cells:
+                raise EmptyArgmax()
+            if not all(isinstance(x, bool) for x in cells):
+                raise Unsupported("interpreter: np.argmax of a non-boolean array")
+            return cells.index(True) if True in cells else 0
+        if name == "argsort":
+            cells = args[0].data
+            order = sorted(range(len(cells)), key=lambda i: (cells[i] == pyloops.FNAN, 0 if cells[i] == pyloops.FNAN else cells[i]))
+            return _mk(order, True)
+        if name == "nanmedian":
+            xs = sorted(x for x in _flat(args[0].data) if x != pyloops.FNAN)
+            n = len(xs)
+            if n == 0:
+                return pyloops.FNAN
+            return Fraction(xs[n // 2]) if n % 2 else (Fraction(xs[n // 2 - 1]) + Fraction(xs[n // 2])) / 2
+        node2 = node
+        return super().ex(node2, env)
+
+
+def interpret_ext(fn: ast.FunctionDef, args, numpy_names=("np",), consts=None, functions=None):
+    """the whole function on `Arr` / scalar arguments (run imperatively, exactly) -> what it returns (an `Arr` or a tuple
+    of `Arr`s); raises pyloops.OutOfBounds on a read or store outside an array, EmptyArgmax on np.argmax of an empty mask"""
+    return InterpExt(numpy_names, consts, functions).call(fn, list(args))
